@@ -13,8 +13,14 @@ def expected_specs(sess, pieces):
     return sorted(out)
 
 
+# the schemes src/verbatim_url.rs lists (Scheme::parse), exactly as written there
+LISTED_SCHEMES = ['file', 'git+git', 'git+http', 'git+file', 'git+ssh', 'git+https', 'bzr+http', 'bzr+https', 'bzr+ssh', 'bzr+sftp', 'bzr+ftp', 'bzr+lp', 'bzr+file', 'hg+file', 'hg+http',
+                  'hg+https', 'hg+ssh', 'hg+static-http', 'svn+ssh', 'svn+http', 'svn+https', 'svn+svn', 'svn+file', 'http', 'https']
+
+
 def run(ctx):
     ctx.proofs('Props/C07.v')
+    ctx.table_proofs('C07Tables.v')
     build.extract_and_driver()
     h = build.harness()
     quick = ctx.tier == 'quick'
@@ -28,6 +34,7 @@ def run(ctx):
                          'white space) classes' % (n_der, len(reqgen.NAMES), len(reqgen.EXTRA_IDS), len(reqgen.SPECS), len(reqgen.URLS), n_layouts, reqgen.WS))
     sess = markers.Session(h)
     keys = markers.Keys(sess.p)
+    markers.check_source_tables(ctx, keys)
     rm = reqmodel.ReqModel(sess.p, keys, wd=None)
     # the grammar's arbitrary equality inside markers (tracked finding F7b)
     for text in ["foo ; python_version === '3.8'", "foo;python_full_version==='3.8.1' and os_name=='a'"]:
@@ -76,8 +83,11 @@ def run(ctx):
                 ctx.nontrivial((d['kind'], len(d['extras'] or []), len(d.get('specs', [])), d['marker'][0] if d['marker'] else None, layout > 0, verbatim))
                 entry = 'Requirement::<%s>::from_str' % ('VerbatimUrl' if verbatim else 'Url')
                 if io[0] != 'ok':
+                    # tracked finding F16: with the default features Requirement<VerbatimUrl> takes a URL whose scheme is not in its own list
+                    # (src/verbatim_url.rs Scheme, matched as written) for a path and refuses it; the class applies only to schemes outside that list
+                    cls = 'unknown-url-scheme' if (verbatim and d['kind'] == 'url' and d['url'].split(':')[0] not in LISTED_SCHEMES and io[0] == 'err' and io[1] == 'url') else None
                     ctx.failure('the grammatical requirement %r is rejected by %s: %s' % (text, entry, io[1:4] if io[0] == 'err' else io),
-                                {'entry': entry, 'input': text, 'derivation': repr(d)})
+                                {'entry': entry, 'input': text, 'derivation': repr(d)}, cls)
                     continue
                 name, extras, kind, reg, dmp = r[1:6]
                 problems = []
